@@ -707,6 +707,13 @@ func TestC06_Sequences(t *testing.T) {
 		var desc []string
 		prevWant, prevTuple := false, sigTuple{}
 		nontrivial, forged := false, false
+		// signature bytes whose origin (signer, signed tuple) is known by construction
+		knownSigs := map[string]sigSpec{}
+		for j := range c0.Sigs {
+			if j < len(c0.SigSpecs) {
+				knownSigs[string(c0.Sigs[j])] = c0.SigSpecs[j]
+			}
+		}
 		for k := 0; k < steps; k++ {
 			kind := "first"
 			if k > 0 {
@@ -744,6 +751,7 @@ func TestC06_Sequences(t *testing.T) {
 							sig, spec = make([]byte, 65), sigSpec{Kind: how + ":unsignable", Signer: -1}
 						}
 						cur.Sigs[pos], cur.SigSpecs[pos] = sig, spec
+						knownSigs[string(sig)] = spec
 					case "random":
 						sig := rapid.SliceOfN(rapid.Byte(), 65, 65).Draw(rt, fmt.Sprintf("forgeRnd%d", k))
 						sig[64] &= 1
@@ -762,6 +770,10 @@ func TestC06_Sequences(t *testing.T) {
 							sig[at] ^= byte(1 << uint(rapid.IntRange(0, 7).Draw(rt, fmt.Sprintf("forgeBit%d", k))))
 						}
 						cur.Sigs[pos], cur.SigSpecs[pos] = sig, sigSpec{Kind: "flipped", Signer: -1}
+					// a second flip of the same bit gives back bytes whose origin is known
+					if sp, ok := knownSigs[string(sig)]; ok {
+						cur.SigSpecs[pos] = sp
+					}
 					}
 					kind += ":" + how
 				case "one-field":
